@@ -5,6 +5,7 @@ import Carquet.Proofs.Zigzag
 import Carquet.Proofs.BitpackTails
 import Carquet.Proofs.RleEncoder
 import Carquet.Proofs.RleLevels
+import Carquet.Proofs.RleLevelsF58
 /-
 C11 — every encoding decodes its own output (part: ULEB128 varints + zigzag, raw bit packing,
 RLE/bit-packed hybrid for values and int16 levels, with and without length prefix).
@@ -217,5 +218,13 @@ theorem C11_regression_F32 :
 theorem C11_regression_F33 :
     RlePreFix.prefixCheck [0xFF, 0xFF, 0xFF, 0xFF, 0x02, 0x01] = .accepted 4294967295 ∧
     Rle.decodeLevelsPrefixed 1 [0xFF, 0xFF, 0xFF, 0xFF, 0x02, 0x01] 5 = .error .lengthExceedsInput := by decide
+
+/-- F58 (pinned `carquet_rle_decode_levels`: a bit-packed group that is cut short only `break`s the
+group loop): width 3, one announced group of which 2 of 3 bytes are present — the pinned loop
+parses the remains `02 FF` as an RLE run header and returns the level 7 made of them; the repaired
+loop stops (no level).  The same at width 8 with remains `02 05`. -/
+theorem C11_regression_F58 :
+    Rle.decodeLevelsPreF58 3 [0x03, 0x02, 0xFF] 1 = [7] ∧ Rle.decodeLevels 3 [0x03, 0x02, 0xFF] 1 = [] ∧
+    Rle.decodeLevelsPreF58 8 [0x03, 0x02, 0x05] 4 = [5] ∧ Rle.decodeLevels 8 [0x03, 0x02, 0x05] 4 = [] := by decide
 
 end Carquet.Properties.C11
